@@ -8,6 +8,9 @@ CONTRACTS = [SweepDeadEntries, InsertOnce, GetCleanRef, RemoveNoneReferents, Wor
 from contracts.identity import EntityInitRefusal, MapAttributesStub
 CONTRACTS = list(CONTRACTS) + [MapAttributesStub, EntityInitRefusal]
 
+from contracts.removal import ObjectRemoveDisplaySettings  # an object that keeps a removed child keeps its identifier alive
+CONTRACTS = list(CONTRACTS) + [ObjectRemoveDisplaySettings]
+
 MANIFEST = {
     "category": "proof",
     "text": "Registry primitives (insert_once, get_clean_ref, remove_none_referents: whole-map postconditions, frames, exceptional posts, one loop invariant) are discharged for all registries, keys and liveness patterns. Workspace.register is proved over five symbolic registries, using those primitives' contracts at the call sites: under the workspace invariant (an identifier is live in at most one entity registry) a request is accepted only when no other live entity of any kind holds the identifier, the entity then owns it in the registry of its own kind, the invariant holds again, live entries of every other key and registry are untouched, and a refusal leaves all five registries as they were. The history quantifier (create / copy / remove / re-create, one or two workspaces, refusals without side effects on the tree, copies keeping or renewing identifiers, one type per class) is a bounded native stand-in over the public API. Round-5 addition: a bounded stand-in over 12 kinds of objects (surveys with partners, drillholes, images, groups) for the identifier rule of copies: originals' identifiers kept in an empty other workspace, fresh ones when taken or inside the same workspace. Round-6 additions: Workspace.copy_to_parent under contract (identifier kept exactly when free in the target, decided by a lookup there), hex / URN spellings of identifiers, objects with empty names in the by-kind copies. Round-7 additions: H5Writer.remove_entity (an identifier given up leaves no stored record behind), data sets removed and re-created under the freed identifier, the holder of every identifier compared across a session boundary.",
